@@ -163,6 +163,39 @@ func zzH_C05_honest() {
 	zzverif.Reach("end")
 }
 
+var zzC05Penalties int
+
+func zzC05CountPenalty(config *params.YouParams, typ string, currentDB *state.StateDB, header *types.Header, val *state.Validator, penaltyAmount *big.Int, happenedRound uint64) (*big.Int, []*SlashWithdrawRecord, []*PenaltyRecord) {
+	zzC05Penalties++
+	return new(big.Int).Set(penaltyAmount), nil, nil
+}
+
+// zzH_C05_across_blocks: the same (real) equivocation evidence placed in the slash data of two
+// different blocks (two different parent heights, a fresh per-block de-duplication map each)
+// gets as far as a penalty in at most one of them.
+//
+//verif:replace $M/staking.doPenalize zzC05CountPenalty
+func zzH_C05_across_blocks() {
+	zzC05Penalties = 0
+	st, s, cfg, header, _ := zzC05Setup(2)
+	zzC05Honest = false
+	zzverif.Assume(zzC05Ev.Signs[0].Hash != zzC05Ev.Signs[1].Hash && zzC05Ev.SignerIdx == 0)
+	zzverif.Assume(zzC05Ev.Round < 200)
+	p1, p2 := uint64(zzverif.U16("parentHeight.block1")), uint64(zzverif.U16("parentHeight.block2"))
+	zzverif.Assume(p1 < p2)
+	zzC05Process(st, s, cfg, header, p1, map[common.Address]struct{}{})
+	first := zzC05Penalties
+	zzC05Process(st, s, cfg, header, p2, map[common.Address]struct{}{})
+	if first == 1 {
+		zzverif.Reach("penalised-in-first-block")
+	}
+	if zzC05Penalties-first == 1 {
+		zzverif.Reach("penalised-in-second-block")
+	}
+	zzverif.Assert(zzC05Penalties <= 1, "one equivocation is penalised in at most one block")
+	zzverif.Reach("end")
+}
+
 // zzH_C05_equivocation: two different hashes really signed for one round/index at the
 // parent height penalise the signer once, within the configured fraction, and a second
 // evidence against the same signer changes nothing.
